@@ -1,7 +1,8 @@
+import Gv.Oracle.Cli
 import Gv.Oracle.Det
 import Gv.Oracle.Mask
 import Gv.Oracle.Loop
 /-! oracle of property C15: only the handlers it needs -/
 open Gv Gv.Oracle
 
-def main : IO Unit := runOracle [MaskOps.handle, DetOps.handle]
+def main : IO Unit := runOracle [MaskOps.handle, DetOps.handle, CliOps.handle]
